@@ -1,11 +1,16 @@
 /-
 Line protocol of the C08 driver.  A box is
   (Kind style ws (colspan rowspan span) (flags colspan rowspan gridx) (code points…) (kids…) (column groups…))
-with `style`  = letters of f(loat) n(footnote) a(bsolute) r(unning) c(apitalize) h(eader display)
-                t(footer display) b(ottom caption) A(nonymous style), or `-`;
+with `style`  = letters of f(loat) n(footnote) a(bsolute) r(unning) h(eader display) t(footer display)
+                b(ottom caption) A(nonymous style), text-transform c(apitalize) u(ppercase) l(owercase)
+                w(ide), y (hyphens: none), or `-`;
      `flags`  = letters of l(eading space) t(railing space) w(rapper) h(is_header) f(is_footer)
                 x(flex item) g(rid item) n(is_floated overridden), or `-`.
-An element is (el (display…) float position ws style-letters(c b) (colspan rowspan span) (text…) (kids…) (tail…)).
+An element is (el <estyle> (colspan rowspan span) <marker> <before> <after> (text…) (kids…) (tail…)) with
+  estyle  = ((display…) float position ws letters quotes), letters of c u l w y b o(utside markers) or `-`,
+            quotes = none | auto | ((open…) (close…)) (each quote a list of code points);
+  content = inhibit | (item…), item = (s code points…) | (q open insert);
+  before / after = none | (<estyle> <content>);  marker = none | (<estyle> <content> <text of the type | none>).
 -/
 import WpModel.Model.Wire
 import WpModel.Model.BoxGen
@@ -25,9 +30,12 @@ def text? (x : Sx) : Option Text := x.list?.bind (allSome Sx.nat?)
 
 def style? (letters : String) (ws : WS) : Option Style :=
   if letters == "-" then some { ws := ws }
-  else if letters.toList.all (fun c => "fnarchtbA".toList.contains c) then
+  else if letters.toList.all (fun c => "fnarhtbAculwy".toList.contains c) then
     let has (c : Char) : Bool := letters.toList.contains c
-    some { flt := has 'f', foot := has 'n', abs := has 'a', run := has 'r', cap := has 'c', ws := ws,
+    some { flt := has 'f', foot := has 'n', abs := has 'a', run := has 'r', ws := ws,
+           tt := if has 'c' then .capitalize else if has 'u' then .uppercase else if has 'l' then .lowercase
+                 else if has 'w' then .fullWidth else .none,
+           hyph := has 'y',
            disp := if has 'h' then .header else if has 't' then .footer else .other,
            capBottom := has 'b', anon := has 'A' }
   else none
@@ -71,8 +79,9 @@ def letters (pairs : List (Bool × Char)) : String :=
   if cs.isEmpty then "-" else String.ofList cs
 
 def showStyle (s : Style) : String :=
-  letters [(s.flt, 'f'), (s.foot, 'n'), (s.abs, 'a'), (s.run, 'r'), (s.cap, 'c'), (s.disp == .header, 'h'),
-           (s.disp == .footer, 't'), (s.capBottom, 'b'), (s.anon, 'A')]
+  letters [(s.flt, 'f'), (s.foot, 'n'), (s.abs, 'a'), (s.run, 'r'), (s.disp == .header, 'h'),
+           (s.disp == .footer, 't'), (s.capBottom, 'b'), (s.anon, 'A'), (s.tt == .capitalize, 'c'),
+           (s.tt == .uppercase, 'u'), (s.tt == .lowercase, 'l'), (s.tt == .fullWidth, 'w'), (s.hyph, 'y')]
 
 def showOptInt : Option Int → String | none => "none" | some v => toString v
 def showOptNat : Option Nat → String | none => "none" | some v => toString v
@@ -96,18 +105,61 @@ def showRes : Except BErr KBox → String
 
 def strs? (x : Sx) : Option (List String) := x.list?.bind (allSome Sx.atom?)
 
-partial def dom? : Sx → Option Dom
-  | .list [.atom "el", disp, .atom fl, .atom pos, .atom ws, .atom st, el, text, .list kids, tail] => do
+def texts? (x : Sx) : Option (List Text) := x.list?.bind (allSome text?)
+
+def quotes? : Sx → Option Quotes
+  | .atom "none" => some .none
+  | .atom "auto" => some .auto
+  | .list [o, c] => do pure (.pairs (← texts? o) (← texts? c))
+  | _ => none
+
+def estyle? : Sx → Option EStyle
+  | .list [disp, .atom fl, .atom pos, .atom ws, .atom st, q] => do
     let d ← strs? disp
     let w ← WS.ofCss? ws
+    let q ← quotes? q
+    if st == "-" || st.toList.all (fun c => "culwybo".toList.contains c) then
+      let has (c : Char) : Bool := st != "-" && st.toList.contains c
+      pure { display := d, float := fl, position := pos, ws := w,
+             tt := if has 'c' then .capitalize else if has 'u' then .uppercase else if has 'l' then .lowercase
+                   else if has 'w' then .fullWidth else .none,
+             hyph := has 'y', capBottom := has 'b', listOutside := has 'o', quotes := q }
+    else none
+  | _ => none
+
+def citem? : Sx → Option CItem
+  | .list (.atom "s" :: cps) => (allSome Sx.nat? cps).map .str
+  | .list [.atom "q", o, i] => do pure (.quote (← o.bool?) (← i.bool?))
+  | _ => none
+
+def content? : Sx → Option Content
+  | .atom "inhibit" => some .inhibit
+  | .list items => (allSome citem? items).map .items
+  | _ => none
+
+def pseudo? : Sx → Option (Option Pseudo)
+  | .atom "none" => some none
+  | .list [st, c] => do pure (some ⟨← estyle? st, ← content? c⟩)
+  | _ => none
+
+def marker? : Sx → Option (Option MarkerSpec)
+  | .atom "none" => some none
+  | .list [st, c, t] => do
+    let tt ← (match t with | .atom "none" => some none | x => (text? x).map some)
+    pure (some ⟨← estyle? st, ← content? c, tt⟩)
+  | _ => none
+
+partial def dom? : Sx → Option Dom
+  | .list [.atom "el", st, el, marker, before, after, text, .list kids, tail] => do
+    let s ← estyle? st
     let e ← el? el
+    let m ← marker? marker
+    let b ← pseudo? before
+    let a ← pseudo? after
     let t ← text? text
     let tl ← text? tail
     let ks ← allSome dom? kids
-    if st == "-" || st.toList.all (fun c => "cb".toList.contains c) then
-      let has (c : Char) : Bool := st != "-" && st.toList.contains c
-      pure (.el d fl pos w (has 'c') (has 'b') e t ks tl)
-    else none
+    pure (.el s e m b a t ks tl)
   | _ => none
 
 def cellIn? : Sx → Option TableGrid.CellIn
@@ -138,6 +190,16 @@ def handle (cmd : String) (args : List Sx) : Option String :=
     let r := processText w t f
     pure (showText r.text ++ " " ++ toString r.setLeading ++ " " ++ toString r.following)
   | "cap", [text] => (text? text).map (fun t => showText (capitalize t))
+  | "content", [q, c, depth] => do
+    let q ← quotes? q
+    let c ← content? c
+    let d ← depth.nat?
+    match c with
+    | .inhibit => pure "inhibit"
+    | .items l =>
+      match contentText q l [] d with
+      | .ok (t, d') => pure (showText t ++ " " ++ toString d')
+      | .error e => pure e.render
   | "wspace", [b] => (box? b).map (fun b => toString (isWhitespace b))
   | "pw", [fcs, b] => do
     let f ← fcs.bool?
